@@ -47,3 +47,24 @@ CLAIMS["C12"] = dict(
          "exhaustive only within the model's bounds (3 actors, <= 2 operations each, one cancel).",
     design_ref="DESIGN.md §6 C12",
 )
+
+CLAIMS["C06"] = dict(
+    text="MpscChan.tla / SpscChan.tla / MpmcChan.tla (literal models of the three channels: send, recv, try_recv, recv_timeout, "
+         "clone and drop of either side, over the abstract queue and blocker/semaphore) are checked exhaustively by TLC for 2 "
+         "senders x 1-2 messages and 1-2 receivers: delivered once, nothing invented, per-sender order, nothing lost at the end, "
+         "deadlock-freedom = the send that makes a value available wakes the blocked receiver. TLC behaviours are replayed "
+         "into the real channels with thread and coroutine endpoints, virtual-clock timeouts and a real cancel; seeded and "
+         "preemption-bounded schedules are explored; a multiset / order / exactly-once-drop / hang oracle judges every execution.",
+    note="Assumes linearizable FIFO queues (C03), AbsBlocker (C02), timer contract (C08), Semphore contract for mpmc (C10); SC "
+         "memory; exhaustive only within the model's bounds.",
+    design_ref="DESIGN.md §6 C06",
+)
+CLAIMS["C07"] = dict(
+    text="Same specifications as C06 with the disconnect properties: Disconnected only after the queue is drained and all "
+         "senders are gone, no receiver left blocked after the last sender's drop (deadlock-freedom with the drop at every "
+         "position against each receiver's try / register / park steps), send fails after the port is dropped and left-over "
+         "values are dropped exactly once. TLC behaviours replayed into the real channels; schedules explored; oracle: "
+         "Disconnected-before-drain, receiver hang with no sender alive, drop counts after tear-down.",
+    note="As C06.",
+    design_ref="DESIGN.md §6 C07",
+)
